@@ -4,7 +4,7 @@ in scratch worktrees (suite passes with the patch, demo fails with it and passes
 import json, os, shutil, subprocess, sys
 from concurrent.futures import ThreadPoolExecutor
 
-SRC = "/tmp/wt"
+SRCS = [("/tmp/wt", ""), ("/tmp/wt2", "2")]
 DST = "/verif/seeded"
 BASE_CMD = ["/venv/bin/python", "-m", "pytest", "-q", "-p", "no:cacheprovider", "--timeout=900", "-x"]
 
@@ -53,26 +53,30 @@ def verify(sid):
 
 def main():
     ids = []
-    for c in sorted(os.listdir(SRC)):
-        out = os.path.join(SRC, c, "_out")
-        if not os.path.isdir(out):
+    for SRC, suffix in SRCS:
+        if not os.path.isdir(SRC):
             continue
-        for x in "AB":
-            p = os.path.join(out, f"patch{x}.diff")
-            if not os.path.exists(p):
+        for c in sorted(os.listdir(SRC)):
+            out = os.path.join(SRC, c, "_out")
+            if not os.path.isdir(out):
                 continue
-            sid = f"{c}{x.lower()}"
-            d = os.path.join(DST, sid)
-            if not os.path.exists(os.path.join(d, "meta.json")):
-                os.makedirs(d, exist_ok=True)
-                shutil.copy(p, os.path.join(d, "patch.diff"))
-                shutil.copy(os.path.join(out, f"demo{x}.py"), os.path.join(d, "demo.py"))
-                note = os.path.join(out, f"note{x}.md")
-                if os.path.exists(note):
-                    shutil.copy(note, os.path.join(d, "note.md"))
-                json.dump({"id": sid, "property": c, "source": "independent sub-agent given only the property text and a scratch worktree",
-                           "needs_to_manifest": open(note).read()[:1500] if os.path.exists(note) else "", "verified": False}, open(os.path.join(d, "meta.json"), "w"), indent=1)
-            ids.append(sid)
+            for x in "ABC":
+                p = os.path.join(out, f"patch{x}.diff")
+                if not os.path.exists(p) or not os.path.exists(os.path.join(out, f"demo{x}.py")):
+                    continue
+                sid = f"{c}{x.lower()}{suffix}"
+                d = os.path.join(DST, sid)
+                if not os.path.exists(os.path.join(d, "meta.json")):
+                    os.makedirs(d, exist_ok=True)
+                    shutil.copy(p, os.path.join(d, "patch.diff"))
+                    shutil.copy(os.path.join(out, f"demo{x}.py"), os.path.join(d, "demo.py"))
+                    note = os.path.join(out, f"note{x}.md")
+                    if os.path.exists(note):
+                        shutil.copy(note, os.path.join(d, "note.md"))
+                    json.dump({"id": sid, "property": c, "source": "independent sub-agent given only the property text and a scratch worktree" + (" (second wave, on the tree with the fix: commits)" if suffix else ""),
+                               "needs_to_manifest": open(note).read()[:1500] if os.path.exists(note) else "", "verified": False}, open(os.path.join(d, "meta.json"), "w"), indent=1)
+                ids.append(sid)
+    ids = [i for i in ids if not json.load(open(os.path.join(DST, i, "meta.json"))).get("status")]
     with ThreadPoolExecutor(6) as ex:
         for sid, r in ex.map(verify, ids):
             print(sid, r)
